@@ -1125,6 +1125,8 @@ class Sequence:
         """
         if in_place:
             seq_copy = self
+            # Library contents and ids change below: cached blocks become stale
+            self.block_cache.clear()
         else:
             # Avoid copying block_cache for performance
             tmp = self.block_cache
